@@ -28,6 +28,7 @@ def make_case(seed, shard_index, i, kind, opts=None):
         max_contigs=opts.get("max_contigs", 8),
         max_texels=opts.get("max_texels", 60),
         terminal_gaps=opts.get("terminal_gaps", False),
+        gap_only=opts.get("gap_only", False),
         small_contigs=opts.get("small_contigs", False) or (kind == "hostile" and rng.random() < 0.5),
     )
     case = {"kind": "remap", "gen": kind, "t": t, "input": inp, "prefix": "SUPER_", "id": [seed, shard_index, i]}
@@ -89,13 +90,18 @@ def make_case(seed, shard_index, i, kind, opts=None):
     case["via_text"] = rng.random() < opts.get("via_text", 0.15) and "in:scaffold-name-in-two-blocks" not in labels
     if case["via_text"]:
         case["via_text"] = rng.choice(["agp", "tpf"])
+        if opts.get("gap_only") and "in:gap-only-scaffold" in labels:
+            case["via_text"] = "agp"  # (a scaffold without a contig cannot be written as TPF)
         labels.add(f"in:via-{case['via_text']}-text")
         if rng.random() < 0.25:
             case["pretext_crlf"] = True
             labels.add("in:pretext-text-with-crlf")
         if case["via_text"] == "agp" and rng.random() < 0.5:
-            case["agp_variant"] = rng.choice(["v1.1-gaps", "component-types"])
+            case["agp_variant"] = rng.choice(["v1.1-gaps", "component-types", "known-length-gaps"])
             labels.add(f"in:agp-{case['agp_variant']}")
+        if case["via_text"] == "tpf" and rng.random() < 0.3:
+            case["tpf_variant"] = "gap-method-column"
+            labels.add("in:tpf-gap-method-column")
     # (through AGP text two adjacent blocks of one name would simply be read as one scaffold)
     if opts.get("no_join_gap") and rng.random() < opts["no_join_gap"]:
         case["no_join_gap"] = True
@@ -125,7 +131,11 @@ def build_inputs(case):
             from tola.assembly.parser import parse_tpf
             from vf.ref import tpf_ref
 
-            ia = IndexedAssembly.new_from_assembly(parse_tpf(io.StringIO(tpf_ref.format({"header": [], "scaffolds": case["input"]})), "in"))
+            ttext = tpf_ref.format({"header": [], "scaffolds": case["input"]})
+            if case.get("tpf_variant") == "gap-method-column":
+                # NCBI TPF gap lines may carry a fourth column (the method by which the gap was sized)
+                ttext = "".join(ln + "\tPAIRED_ENDS\n" if ln.startswith("GAP\t") else ln + "\n" for ln in ttext.split("\n") if ln)
+            ia = IndexedAssembly.new_from_assembly(parse_tpf(io.StringIO(ttext), "in"))
         else:
             from vf.ref import agp_ref
 
@@ -139,6 +149,8 @@ def build_inputs(case):
                     if len(f) >= 9 and not ln.startswith("#"):
                         if f[4] in ("N", "U") and case["agp_variant"] == "v1.1-gaps":
                             f = f[:8]
+                        elif f[4] == "U" and case["agp_variant"] == "known-length-gaps":
+                            f[4] = "N"  # a gap of known length
                         elif f[4] == "W" and case["agp_variant"] == "component-types":
                             f[4] = "WADFGOP"[(k + len(f[5])) % 7]
                     lines.append("\t".join(f))
